@@ -702,6 +702,9 @@ struct Ctl {
     counter: u64,
     spawns: u64,
     hangs: u64,
+    /// bookkeeping only (how long to wait for a late answer): the worker whose acquire was answered last and
+    /// who has not released since
+    holder: Option<usize>,
 }
 
 const CALL_TIMEOUT: Duration = Duration::from_secs(30);
@@ -772,6 +775,7 @@ impl Ctl {
         out.ev(&hdr);
         let mut seq = 0u64;
         let empty = vec![];
+        self.holder = None;
         for op in prog["ops"].as_array().unwrap_or(&empty) {
             let p = op["p"].as_u64().unwrap_or(1) as usize;
             let name_op = op["op"].as_str().unwrap_or("");
@@ -783,11 +787,21 @@ impl Ctl {
                 let removed = remove_locks(&dir);
                 seq += 1;
                 out.ev(&json!({"p": 0, "op": "unstick", "i": seq, "res": {"r": "ok", "removed": removed}, "obs": observe(&name)}));
+                self.holder = None;
                 let res = self.late_answer(p);
+                if res["r"] == "ok" {
+                    self.holder = Some(p);
+                }
                 seq += 1;
                 out.ev(&json!({"p": p, "op": "granted", "auto": true, "i": seq, "res": res, "obs": observe(&name)}));
             }
             let res = self.step(p, name_op, op, &dir);
+            match (name_op, res["r"].as_str().unwrap_or("")) {
+                ("acquire" | "granted", "ok") => self.holder = Some(p),
+                ("release" | "exit", "ok") if self.holder == Some(p) => self.holder = None,
+                ("unstick", _) => self.holder = None,
+                _ => {}
+            }
             seq += 1;
             let mut ev = op.clone();
             ev["i"] = json!(seq);
@@ -813,11 +827,15 @@ impl Ctl {
     }
 
     fn late_answer(&mut self, p: usize) -> Value {
+        let holder_dead = self.holder.is_some_and(|h| self.kids[h - 1].dead);
         let k = &mut self.kids[p - 1];
         if !k.pending {
             return json!({"r": "notpending"});
         }
-        match k.wait_reply(Duration::from_secs(10), false) {
+        // a waiter polls every 50 ms: when the holder is known to be dead, 2 s (40 periods) of silence is recorded as
+        // "timeout"; otherwise (the holder released) the answer must come, the bound is a hang detector
+        let wait = if holder_dead { Duration::from_secs(2) } else { Duration::from_secs(20) };
+        match k.wait_reply(wait, false) {
             Reply::Line(v) => {
                 k.pending = false;
                 v
@@ -877,7 +895,7 @@ fn main() {
     quiet_panics();
     let mut out = Out::from_arg(arg(&args, "--out").as_ref());
     let programs = arg(&args, "--programs").map(|p| read_programs(&p)).unwrap_or_default();
-    let mut ctl = Ctl { kids: vec![], counter: 0, spawns: 0, hangs: 0 };
+    let mut ctl = Ctl { kids: vec![], counter: 0, spawns: 0, hangs: 0, holder: None };
     let mut n = 0u64;
     for prog in &programs {
         ctl.run_program(prog, &mut out);
